@@ -49,8 +49,11 @@ def run_property(prop, tier, seed, args):
     t_start = time.time()
     log = (lambda s: print(s, flush=True)) if args.verbose else (lambda s: None)
     known = driver.load_known_findings()
-    os.makedirs(os.path.join(ROOT, "evidence"), exist_ok=True)
-    rep_dir = os.path.join(ROOT, "replays", prop)
+    # runs against a scratch copy of the repository (mutation tests) must not touch the committed evidence
+    scratch = os.environ.get("VERIF_REPO") not in (None, "", "/repo")
+    out_root = os.path.join(os.environ["VERIF_REPO"], "_verif_out") if scratch else ROOT
+    os.makedirs(os.path.join(out_root, "evidence"), exist_ok=True)
+    rep_dir = os.path.join(out_root, "replays", prop)
     os.makedirs(rep_dir, exist_ok=True)
     for f in os.listdir(rep_dir):
         os.unlink(os.path.join(rep_dir, f))
@@ -273,7 +276,7 @@ def run_property(prop, tier, seed, args):
     ev["assumptions"] = ASSUMPTIONS_COMMON + (list(getattr(mod, "ASSUMPTIONS", [])) if mod else []) + \
         (list(getattr(smod, "ASSUMPTIONS", [])) if smod else [])
     ev["known_findings_reported"] = seen_kf
-    path = os.path.join(ROOT, "evidence", f"{prop}.json")
+    path = os.path.join(out_root, "evidence", f"{prop}.json")
     json.dump(ev, open(path, "w"), indent=1, default=str)
     try:
         import jsonschema
